@@ -64,7 +64,7 @@ def run_job(prog, job):
         res['discharged'] = P.discharged
         res['samples'].append({'sub_claim': 'parity', 'paths': len(leaves)})
         return res
-    if kind in ('lat-range', 'lat-far', 'lon-range', 'nl-consistency', 'fmod-side'):
+    if kind in ('lat-range', 'lat-far', 'lon-range', 'lon-edge', 'nl-consistency', 'fmod-side'):
         pa, pb = job['order']
         sym, a, b, ex, leaves = explore(prog, pa, pb)
         T.note(res, ex)
@@ -91,7 +91,7 @@ def run_job(prog, job):
             bad = z3.Or(z3.fpGEQ(lat, z3.FPVal(270.0, F64)), z3.fpLT(lat, z3.FPVal(-90.0, F64)), z3.fpIsNaN(lat))
             desc = 'latitude >= 270, < -90 or NaN'
             role = 'latitude-wrap'
-        elif kind == 'lon-range':
+        elif kind in ('lon-range', 'lon-edge'):
             bad = z3.Or(z3.fpGEQ(lon, z3.FPVal(180.0, F64)), z3.fpLT(lon, z3.FPVal(-180.0, F64)), z3.fpIsNaN(lon))
             desc = 'longitude outside [-180, 180)'
             role = 'longitude-range'
@@ -122,6 +122,11 @@ def run_job(prog, job):
         for d in fp_definitions(terms):
             s.add(d)
         s.add(bad)
+        if kind == 'lon-edge':
+            # bounded sub-claim of the quick tier: the longitude of the latest report is fixed to one end / quarter point
+            # of the CPR range (job['lon_latest']), the other longitude is one of LON_EDGE, both latitudes stay fully symbolic
+            s.add(z3.BitVec('b_lon', 17) == job['lon_latest'])
+            s.add(z3.Or(*[z3.BitVec('a_lon', 17) == c_ for c_ in LON_EDGE]))
         # non-incremental solver objects (push/pop would switch z3 to its much slower incremental core for QF_FP)
         assertions = list(s.assertions())
         r = z3.unknown
@@ -162,7 +167,7 @@ def run_job(prog, job):
             second = 'o' if pb else 'e'
             req = 'cpr %s %d %d %s %d %d' % (first, w['a_lat'], w['a_lon'], second, w['b_lat'], w['b_lon'])
             res['violations'].append({'property': 'C05', 'role': '%s:%s%s' % (role, first, second), 'witness': None, 'detail': desc + ' for ' + req,
-                                      'cpr': w, 'replay_kind': 'cpr', 'replay_request': req, 'expect': kind, 'job': job,
+                                      'cpr': w, 'replay_kind': 'cpr', 'replay_request': req, 'expect': 'lon-range' if kind == 'lon-edge' else kind, 'job': job,
                                       'model_lat': str(m.eval(lat, model_completion=True)), 'model_lon': str(m.eval(lon, model_completion=True))})
         else:
             msg = '%s (%s order %s%s): solver gave no verdict in %ds' % (desc, kind, 'o' if pa else 'e', 'o' if pb else 'e', job.get('timeout_ms', 120000) // 1000)
@@ -170,13 +175,17 @@ def run_job(prog, job):
                 # claims of the property: no verdict is no pass
                 res['inconclusive'] = msg
             else:
-                # witness searches for the recorded findings: harmless when they time out
+                # witness searches for the recorded findings, and the quick tier's bounded counterexample search for the
+                # longitude range (lon-edge; the range itself is a claim of the thorough tier only): harmless when they time out
                 res['undecided'] = [msg]
         res['samples'].append({'sub_claim': kind, 'order': job['order'], 'verdict': str(r), 'solver_s': round(res['solver_s'], 1)})
         return res
     if kind == 'nl-table':
         return job_nl_table(prog, job, res)
     raise ExecError('unknown job')
+
+
+LON_EDGE = (0, 1, 32768, 65535, 65536, 65537, 98304, 131071)
 
 
 def integral_by_construction(t):
@@ -354,6 +363,11 @@ def main(tier):
     for order in ((0, 1), (1, 0)):
         for k in kinds:
             jobs.append({'kind': k, 'order': list(order), 'timeout_ms': to})
+    if tier == 'quick':
+        # longitude range on the sub-space "both lon_cpr at an end / quarter point of the range" (the full-range proof is thorough only)
+        for order in ((0, 1), (1, 0)):
+            for v in LON_EDGE:
+                jobs.append({'kind': 'lon-edge', 'order': list(order), 'lon_latest': v, 'timeout_ms': 60000})
     V.build_replay('debug')
     V.build_replay('release')
     results = fw.run_jobs('checks.c05', jobs, files, dirs)
